@@ -863,6 +863,15 @@ func (s *Session) closeSession() error {
 	return intstream.Close(s.Conn(), &s.out.Info)
 }
 
+// outputClosed reports whether the closing stream tag has been written.
+// The output lock must be held so that the answer cannot change while the
+// caller writes.
+func (s *Session) outputClosed() bool {
+	s.stateMutex.RLock()
+	defer s.stateMutex.RUnlock()
+	return s.state&OutputStreamClosed == OutputStreamClosed
+}
+
 // State returns the current state of the session. For more information, see the
 // SessionState type.
 func (s *Session) State() SessionState {
@@ -913,6 +922,9 @@ func (s *Session) SetCloseDeadline(t time.Time) error {
 func (s *Session) Encode(ctx context.Context, v interface{}) error {
 	s.out.Lock()
 	defer s.out.Unlock()
+	if s.outputClosed() {
+		return ErrOutputStreamClosed
+	}
 
 	defer setWriteDeadline(ctx, s.conn)()
 	return marshal.EncodeXML(s.out.e, v)
@@ -925,6 +937,9 @@ func (s *Session) Encode(ctx context.Context, v interface{}) error {
 func (s *Session) EncodeElement(ctx context.Context, v interface{}, start xml.StartElement) error {
 	s.out.Lock()
 	defer s.out.Unlock()
+	if s.outputClosed() {
+		return ErrOutputStreamClosed
+	}
 
 	defer setWriteDeadline(ctx, s.conn)()
 	return marshal.EncodeXMLElement(s.out.e, v, start)
@@ -948,6 +963,9 @@ func (s *Session) SendElement(ctx context.Context, r xml.TokenReader, start xml.
 func send(ctx context.Context, s *Session, r xml.TokenReader, start *xml.StartElement) error {
 	s.out.Lock()
 	defer s.out.Unlock()
+	if s.outputClosed() {
+		return ErrOutputStreamClosed
+	}
 
 	defer setWriteDeadline(ctx, s.conn)()
 
